@@ -131,14 +131,18 @@ def run_checks(sid, props):
         ok, msg = apply_patch(tmp, os.path.join(d, "patch.diff"))
         if not ok:
             return sid, {"error": "patch does not apply: " + msg[-200:]}
-        for p in props:
-            r = subprocess.run([sys.executable, "-m", "analyzer.runner", p, "--repo", tmp, "--no-evidence"], cwd=HERE, capture_output=True, text=True,
-                               env=dict(os.environ, VERIF_REPO=tmp))
-            lines = [l for l in (r.stdout + r.stderr).splitlines() if l.startswith(p + " rule=")]
-            if "elfscan failed" in r.stdout + r.stderr:
-                hits[p] = ["<does not compile>"]
-            elif r.returncode == 1:
-                hits[p] = [l[:260] for l in lines[:3]]
+        r = subprocess.run([sys.executable, "-m", "analyzer.runner", ",".join(props), "--repo", tmp, "--no-evidence"], cwd=HERE, capture_output=True, text=True,
+                           env=dict(os.environ, VERIF_REPO=tmp))
+        out = r.stdout + r.stderr
+        if "elfscan failed" in out:
+            hits = {p: ["<does not compile>"] for p in props[:1]}
+        else:
+            for p in props:
+                lines = [l for l in out.splitlines() if l.startswith(p + " rule=")]
+                summ = [l for l in out.splitlines() if l.startswith(p + " tier=") or l.startswith(p + " ERROR")]
+                bad = (not summ) or ("ERROR" in summ[0]) or (" violations=0 " not in summ[0] + " ")
+                if bad:
+                    hits[p] = [l[:400] for l in lines[:4]] or [(summ[0] if summ else "no summary line: " + out[-300:])[:400]]
     finally:
         shutil.rmtree(tmp, ignore_errors=True)
     meta = json.load(open(os.path.join(d, "meta.json")))
